@@ -84,10 +84,19 @@ BOUNDS = {
              "own inputs; geometries tall / wide (9x5 / 5x9 frames, 5x2 / 2x5 unmasked strips, 5x3 / 3x5 PSFs) and big (7x7 frame, 3x3 block, noise "
              "map x 2^16) with mixes [F,M], [M,M], 8 named-slot subsets, factory case and one shared-tables history each; concrete floats "
              "compared relative to the largest magnitude of the expected output (1e-9); positive-negative solver",
-    "thorough": "as quick plus geometries col / row (3x1 / 1x3 PSFs) and 'plus' (6x6 frame, 7 unmasked pixels, sub-size 2 with fractional mapping weights, 2x3 / 3x2 meshes), "
-                "mixes [function list], [function list, mapper, mapper], [mapper, F, G], [G, mapper, mapper, F] (heterogeneous mixes with all subsets), k=3, all 31 non-empty subsets of the five further slots and "
-                "all ten slots together, slot values donated by an identical inversion of the other formalism, factory cases with the "
-                "degenerate-solution test switched on",
+    "thorough": "as quick, and additionally (same obligations, more of the input space). GEOMETRIES (11): sq3; plus (6x6 frame, 7 pixels, "
+                "sub-size 2, fractional weights); sq4 (8x8 frame, 4x4 block, 5x5 PSF, sub-size 2, 4x4 / 3x3 meshes); ring5 (9x9 frame, 5x5 "
+                "block with the centre and one corner masked = 23 pixels, 5x5 PSF, 5x5 / 3x3 meshes); tall / wide (5x3 / 3x5 PSFs on 5x2 / "
+                "2x5 strips); col / row (3x1 / 1x3 PSFs); big / tiny (noise map x 2^16 / x 2^-16); delta (PSF = identity, no blurring). "
+                "MIXES: [M], [F,M], [M,F], [M,M], [F], [F,M,M], [O,M], [M,M,F], [M,M,M] (second and third mapper coincident) and the "
+                "heterogeneous [G,F,M], [F,G,M], [M,G,M,F], [O,M], [M,O,F], [M,F,G], [G,M,M,F]. For EVERY geometry x mix x formalism: all 32 "
+                "subsets of the five named slots, all 31 non-empty subsets of the five further slots + all ten together, histories of "
+                "k=4 (sq3, plus, big, tiny, delta) / k=3 (other geometries) inversions per Preloads object, donor of the other formalism, "
+                "factory case, and 7 shared-tables histories of 2-4 steps x 2 ways of sharing. NOISE-SYMBOLIC: 3 symbolic noise pixels for "
+                "every geometry x mix x formalism, and ALL noise pixels symbolic in the mapping formalism for sq3, plus, big, tiny, delta. "
+                "Degenerate-solution test switched on (k=3 histories, factory) for sq3, plus, delta with [M], [F,M], [M,M], [O,M]. Backed "
+                "out: 5 symbolic noise pixels in the w-tilde formalism (feasibility `unknown`, path cap), the degenerate-solution test "
+                "for big / tiny (ill-conditioned absolute tolerance).",
 }
 OUTSIDE = [
     "positive-only solver (fnnls; use_positive_only_solver=False throughout - C05 covers the solver)",
@@ -866,12 +875,13 @@ def _cases_deep():
                                                  "noise_sym": 99}, SLOW))
                     for i in range(0, len(subs), 16):
                         out.append(("case_seq", {"geom": geom, "mix": mix, "wt": wt, "subsets": subs[i:i + 16], "k": 2, "donor_wt": not wt}))
-                # (not for 'tiny': F ~ 1e9 against H ~ 1 makes the degenerate-solution test ill-conditioned in float64)
-                if small and geom != "tiny" and mix in ("M", "FM", "MM", "OM"):
+                # (not for 'tiny' / 'big': with F ~ 1e9 or 1e-9 against H ~ 1 the absolute-tolerance degenerate-solution test is
+                # ill-conditioned in float64 resp. leaves the solver with `unknown` feasibility - tried and backed out)
+                if small and geom not in ("tiny", "big") and mix in ("M", "FM", "MM", "OM"):
                     out.append(("case_seq", {"geom": geom, "mix": mix, "wt": wt, "subsets": [["curvature_matrix"], list(SLOTS)],
                                              "k": 3, "check": True}, SLOW))
             out.append(("case_factory", {"geom": geom, "mix": mix}))
-            if small and geom != "tiny" and mix in ("M", "FM", "MM"):
+            if small and geom not in ("tiny", "big") and mix in ("M", "FM", "MM"):
                 out.append(("case_factory", {"geom": geom, "mix": mix, "check": True}, SLOW))
         for mix in DEEP_HETERO:
             for wt in (True, False):
